@@ -13,6 +13,7 @@ def sh(cmd, cwd=None, timeout=1800):
     return r.returncode, r.stdout + r.stderr
 specs = [l.split() for l in open(sys.argv[1]) if l.strip() and not l.startswith('#')]
 NW = 5
+REPO = os.environ.get("REPO", "/repo")   # tree used for part B (a scratch worktree while /repo is busy)
 def partA(args):
     w, (prop, idx, pkg, sd) = args
     wt = f"/tmp/wtp{w}"
@@ -48,13 +49,13 @@ sh("cd /verif/checker && go build -o ../bin/pprofcheck .")
 for prop, idx, pkg, sd in specs:
     suite, withp, without = resA[(prop, idx)]
     print(f"=== {prop} #{idx} ({sd})  suite with patch: {suite} | demo with patch: {withp} | demo without: {without}")
-    rc, out = sh(f"git -C /repo apply {sd}/patch.diff")
+    rc, out = sh(f"git -C {REPO} apply {sd}/patch.diff")
     if rc != 0:
         print("    PATCH DOES NOT APPLY TO /repo"); continue
     try:
-        rc, out = sh("/verif/bin/pprofcheck -property all -no-evidence")
+        rc, out = sh(f"/verif/bin/pprofcheck -property all -no-evidence -repo {REPO}")
     finally:
-        sh("git -C /repo checkout -- .")
+        sh(f"git -C {REPO} checkout -- .")
     lines = [l.strip()[:330] for l in out.splitlines() if re.match(r"\s*(VIOLATION C|UNDECIDED)", l)]
     own = [l for l in lines if re.match(rf"(VIOLATION|UNDECIDED) {prop}-", l)]
     print(f"    own check ({prop}): {'REPORTS' if own else 'SILENT'}")
